@@ -25,5 +25,11 @@ def run(repo: Repo, tier, rep: Report):
         n += check_stream(repo, cls, add)
     rep.ob("R.stream", "stream_interactions x2", "stream enumeration shape decided for %d classes" % n)
     rep.floor("stream functions", n, 2)
+    from sa.ownership import check_purity
+
+    def addp(rule, construct, key, msg, line=0):
+        rep.finding(rule, construct, key, msg, line=line)
+    nq = check_purity(repo, addp, only={"stream_interactions"})
+    rep.ob("W2.pure-query", "stream_interactions", "%d stream observers write nothing through self (no cached order)" % nq)
     rep.assume(*common.MERGE_ASSUMPTIONS)
     rep.assume("insertion order inside one instant is dict order and is not constrained by the property")
